@@ -868,6 +868,36 @@ fn fixed_histories() -> Vec<Case> {
         ],
         "release-recursive",
     );
+    // every chain outer(kind) -> middle(kind) -> inner array, released recursively from the outer one:
+    // the recursion must go on below EVERY kind of container
+    for outer in ["array", "map", "set_new"] {
+        for middle in ["array", "map", "set_new"] {
+            let mut ops: Vec<(&'static str, Vec<Arg>)> = vec![("array", vec![lit("leaf1"), lit("leaf2")])]; // op 0 = inner
+            let mut wrap = |ops: &mut Vec<(&'static str, Vec<Arg>)>, kind: &'static str, child: usize| -> usize {
+                match kind {
+                    "map" => {
+                        ops.push(("map", vec![]));
+                        let m = ops.len() - 1;
+                        ops.push(("map_put", vec![Arg::Ref(m), lit("k"), Arg::Ref(child)]));
+                        m
+                    }
+                    k => {
+                        ops.push((k, vec![Arg::Ref(child), lit("plain")]));
+                        ops.len() - 1
+                    }
+                }
+            };
+            let mid = wrap(&mut ops, middle, 0);
+            let out_h = wrap(&mut ops, outer, mid);
+            ops.push(("array", vec![lit("survivor")]));
+            let surv = ops.len() - 1;
+            ops.push(("release", vec![lit("-r"), Arg::Ref(out_h)]));
+            ops.push(("is_array", vec![Arg::Ref(0)]));
+            ops.push(("array_length", vec![Arg::Ref(0)]));
+            ops.push(("array_length", vec![Arg::Ref(surv)]));
+            add(ops, "release-recursive");
+        }
+    }
     add(vec![("range", vec![lit("0"), lit("3")]), ("array", vec![Arg::Ref(0)]), ("release", vec![lit("-r"), Arg::Ref(1)]), ("is_array", vec![Arg::Ref(0)])], "release-recursive");
     add(vec![("array", vec![lit("-r")]), ("release", vec![lit("-r")]), ("release", vec![Arg::Ref(0), lit("-r")]), ("release", vec![])], "release");
     out
